@@ -1,10 +1,15 @@
 //! C20 — autocorrelation helpers on scripted steppers.
 //!
 //! Modes (all run by default):
-//!   custom : `QmcAutoCorrelations::calculate_autocorrelation` with a table-lookup mapper
+//!   custom : `QmcAutoCorrelations::calculate_autocorrelation` with a table-lookup mapper, and
+//!            `QmcBondAutoCorrelations::calculate_bond_autocorrelation` (the mapper is `value_for_bond`);
+//!            order-one columns and columns `±2^k + small dyadic`, k in {10,14,17,20} (shift invariance:
+//!            the mean is far larger than the fluctuations)
 //!   vars   : `calculate_variable_autocorrelation` on a prescribed state sequence
 //!   prod   : `calculate_spin_product_autocorrelation`
-//!   temper : `ParallelTemperingAutocorrelations::{calculate_autocorrelation}` on mock replicas
+//!   temper : `ParallelTemperingAutocorrelations::calculate_autocorrelation` and
+//!            `ParallelTemperingBondAutoCorrelations::calculate_bond_autocorrelation` on mock replicas
+//!            (half of the cases with offset columns)
 //!   real   : `calculate_variable_autocorrelation` on a real `QmcIsingGraph` against a single-stepped clone
 //!   edge   : excluded inputs run once (no sample, constant column, zero observables)
 //! Oracle: the documented formula (mean removed, unit norm, circular, averaged over observables) evaluated
@@ -76,6 +81,17 @@ impl QmcStepper for Script {
         F: Fn(T, &[bool]) -> T,
     {
         init
+    }
+}
+
+/// the bond helper's "mapper" is `value_for_bond`: observable `bond` of the table row of the sampled step
+impl QmcBondAutoCorrelations for Script {
+    fn n_bonds(&self) -> usize {
+        self.obs[0].len()
+    }
+    fn value_for_bond(&self, bond: usize, sample: &[bool]) -> f64 {
+        let (_, age) = dec_age(sample);
+        self.obs[(age - 1) % self.obs.len()][bond]
     }
 }
 
@@ -154,13 +170,23 @@ fn show_table(tab: &[Vec<f64>]) -> String {
 }
 
 fn run_custom(t: usize, f: Option<usize>, table: &[Vec<f64>]) {
+    run_table(false, t, f, table)
+}
+
+/// `bond = false`: `calculate_autocorrelation` with a closure mapper; `bond = true`:
+/// `calculate_bond_autocorrelation` (mapper = `value_for_bond`). Same documented result, same model line.
+fn run_table(bond: bool, t: usize, f: Option<usize>, table: &[Vec<f64>]) {
     let mut q = Script::new(vec![], table.to_vec());
-    let input = format!("custom {} {} {}", t, ftok(f), show_table(table));
+    let input = format!("{} {} {} {}", if bond { "bond" } else { "custom" }, t, ftok(f), show_table(table));
     let r = catch(|| {
-        q.calculate_autocorrelation(t, 1.0, f, |s: &Script, st: Vec<bool>| {
-            let (_, age) = dec_age(&st);
-            s.obs[(age - 1) % s.obs.len()].clone()
-        })
+        if bond {
+            q.calculate_bond_autocorrelation(t, 1.0, f)
+        } else {
+            q.calculate_autocorrelation(t, 1.0, f, |s: &Script, st: Vec<bool>| {
+                let (_, age) = dec_age(&st);
+                s.obs[(age - 1) % s.obs.len()].clone()
+            })
+        }
     });
     match r {
         Err(_) => emit(false, &input, "panic", if sample_ages(t, f).is_empty() { None } else { Some(Err("panicked".into())) }),
@@ -242,6 +268,29 @@ fn gen_table(g: &mut SplitMix64, rows: usize, nobs: usize, allow_const: bool) ->
     tab
 }
 
+const OFFSET_EXPS: [u32; 4] = [10, 14, 17, 20];
+
+/// Add `±2^k` (k from OFFSET_EXPS, chosen per column; `first_k` for the first shifted column) to a mix of
+/// columns: every column with probability 2/3, at least one. All values stay exactly representable
+/// (multiples of 1/4 below 2^21) and so do their running sums, so the rational model sees the same numbers.
+fn add_offsets(g: &mut SplitMix64, tab: &mut [Vec<f64>], first_k: u32) {
+    let nobs = tab[0].len();
+    if nobs == 0 {
+        return;
+    }
+    let forced = g.below(nobs as u64) as usize;
+    let mut first = true;
+    for i in 0..nobs {
+        if i == forced || g.chance(2, 3) {
+            let k = if first { first_k } else { *g.pick(&OFFSET_EXPS) };
+            first = false;
+            let off = (1u64 << k) as f64 * if g.chance(1, 4) { -1.0 } else { 1.0 };
+            tab.iter_mut().for_each(|r| r[i] += off);
+            stat(&format!("offset_col_2^{}", k), 1);
+        }
+    }
+}
+
 fn gen_states(g: &mut SplitMix64, rows: usize, nvars: usize) -> Vec<Vec<bool>> {
     let mut st: Vec<Vec<bool>> = (0..rows).map(|_| (0..nvars).map(|_| g.coin()).collect()).collect();
     for v in 0..nvars {
@@ -265,7 +314,9 @@ fn mode_scripted(a: &Args, which: &str) {
     if a.thorough {
         lens.extend(LENS_THOROUGH.iter());
     }
+    let mut offset_case = 0usize;
     for &l in &lens {
+        offset_case += 1;
         // the rational model costs O(L^2 * nobs) slow exact operations: long series get fewer cases
         let (reps, max_obs) = if !a.thorough {
             (1, 6)
@@ -291,6 +342,21 @@ fn mode_scripted(a: &Args, which: &str) {
                             table[(k + 1) * fv - 1] = sampled[k].clone();
                         }
                         run_custom(t, f, &table);
+                        // the bond helper on the same kind of data (every other case)
+                        if (l + nobs) % 2 == 0 {
+                            run_table(true, t, f, &table);
+                        }
+                        // shift invariance with |mean| >> fluctuation: the same series with offset columns,
+                        // through both mapper entry points; k rotates so that every exponent meets every
+                        // length class (power of two and not)
+                        if nobs <= 3 || a.thorough {
+                            let mut shifted = table.clone();
+                            let k = OFFSET_EXPS[(offset_case + nobs) % 4];
+                            add_offsets(&mut g, &mut shifted, k);
+                            run_table(false, t, f, &shifted);
+                            run_table(true, t, f, &shifted);
+                            stat("offset_cases", 2);
+                        }
                     }
                     "vars" => {
                         let sampled = gen_states(&mut g, l, nobs);
@@ -411,6 +477,16 @@ impl SwapManagers for Rep {
     fn set_op_cutoff(&mut self, _cutoff: usize) {}
 }
 
+impl QmcBondAutoCorrelations for Rep {
+    fn n_bonds(&self) -> usize {
+        self.obs[0][0].len()
+    }
+    fn value_for_bond(&self, bond: usize, sample: &[bool]) -> f64 {
+        let (gid, age) = dec_age(sample);
+        obs_of(&self.obs, gid, age)[bond]
+    }
+}
+
 fn obs_of(obs: &[Vec<Vec<f64>>], gid: usize, age: usize) -> Vec<f64> {
     let t = &obs[gid];
     t[(age - 1) % t.len()].clone()
@@ -419,7 +495,7 @@ fn obs_of(obs: &[Vec<Vec<f64>>], gid: usize, age: usize) -> Vec<f64> {
 fn mode_temper(a: &Args) {
     let mut g = SplitMix64::new(a.seed ^ 0x2077);
     let cases = if a.thorough { 400 } else { 60 };
-    for _ in 0..cases {
+    for ci in 0..cases {
         let nrep = g.range(1, 4) as usize;
         let s = g.range(1, 6) as usize;
         let f = g.range(1, 5) as usize;
@@ -427,7 +503,27 @@ fn mode_temper(a: &Args) {
         let t = l * f + g.below(f as u64) as usize;
         let nobs = g.range(1, 4) as usize;
         // per graph a table over ages; white noise so that columns are (almost surely) non-constant
-        let obs: Vec<Vec<Vec<f64>>> = (0..nrep).map(|_| gen_table(&mut g, t.max(2), nobs, false)).collect();
+        let mut obs: Vec<Vec<Vec<f64>>> = (0..nrep).map(|_| gen_table(&mut g, t.max(2), nobs, false)).collect();
+        // half of the cases: offset columns (per graph, so a slot that receives another graph by a swap sees
+        // a jump of the offset as a genuine, large fluctuation — also fine, still exact)
+        let with_offset = ci % 2 == 1;
+        if with_offset {
+            let k = OFFSET_EXPS[(ci / 2) % 4];
+            if ci % 4 == 1 {
+                // same offsets on every graph: after swaps the series are still `offset + O(1)`
+                let mut probe = vec![vec![0.0; nobs]];
+                add_offsets(&mut g, &mut probe, k);
+                for tab in obs.iter_mut() {
+                    tab.iter_mut().for_each(|r| r.iter_mut().zip(probe[0].iter()).for_each(|(x, o)| *x += *o));
+                }
+            } else {
+                for tab in obs.iter_mut() {
+                    add_offsets(&mut g, tab, k);
+                }
+            }
+            stat("temper_offset_cases", 1);
+        }
+        let bond_entry = ci % 3 == 0;
         let obs = Arc::new(obs);
         let swaps = Arc::new(Mutex::new(vec![]));
         let seed = g.next();
@@ -438,10 +534,15 @@ fn mode_temper(a: &Args) {
         }
         let use_opt_none = f == 1 && g.coin();
         let res = catch(|| {
-            tc.calculate_autocorrelation(t, Some(s), if use_opt_none { None } else { Some(f) }, |st: &[bool], q: &Rep| {
-                let (gid, age) = dec_age(st);
-                obs_of(&q.obs, gid, age)
-            })
+            let fo = if use_opt_none { None } else { Some(f) };
+            if bond_entry {
+                tc.calculate_bond_autocorrelation(t, Some(s), fo)
+            } else {
+                tc.calculate_autocorrelation(t, Some(s), fo, |st: &[bool], q: &Rep| {
+                    let (gid, age) = dec_age(st);
+                    obs_of(&q.obs, gid, age)
+                })
+            }
         });
         let swaps = swaps.lock().unwrap().clone();
         let nsteps = tc.graph_ref().first().map(|(m, _)| *m.gcount.lock().unwrap()).unwrap_or(0);
@@ -462,7 +563,8 @@ fn mode_temper(a: &Args) {
                 .join(";")
         };
         let input = format!(
-            "temper {} {} {} {} {} {}",
+            "{} {} {} {} {} {} {}",
+            if bond_entry { "temperbond" } else { "temper" },
             t,
             s,
             f,
